@@ -157,7 +157,7 @@ func hangClass(dump string) (sig string) {
 		return "channels-closed"
 	}
 	sendUnderLock, apiBlocked, readerInRead, readerExists, senderParked := false, false, false, false, false
-	apiParkedElsewhere, holderBusy := false, false
+	apiParkedElsewhere, holderBusy, nestedWaiter := false, false, false
 	lockWaiters, lockHolders := 0, 0
 	for _, g := range core.Goroutines(dump) {
 		hdr := g
@@ -187,6 +187,9 @@ func hangClass(dump string) (sig string) {
 			}
 			if strings.Contains(g, "sync.(*Mutex).Lock") || strings.Contains(g, "sync.(*Mutex).lockSlow") {
 				lockWaiters++
+				if strings.Contains(g, "(*inotify).newEvent") || strings.Contains(g, "(*inotify).register") || strings.Contains(g, "(*inotify).remove(") {
+					nestedWaiter = true
+				}
 			} else if inCS {
 				lockHolders++
 				if (strings.Contains(hdr, "[running") || strings.Contains(hdr, "[runnable")) && !strings.Contains(g, "(*shared).sendE") {
@@ -213,6 +216,10 @@ func hangClass(dump string) (sig string) {
 		}
 	}
 	switch {
+	case lockWaiters >= 2 && lockHolders == 0 && nestedWaiter:
+		// a goroutine waits for a second lock below a function that already holds the Watcher's lock, and
+		// everybody else waits for that one: locks taken in two different orders
+		return "deadlock:lock-order"
 	case lockWaiters > 0 && lockHolders == 0 && !sendUnderLock:
 		// goroutines wait for the Watcher's lock and no goroutine is inside any function that
 		// holds it: the lock was never released by a path that already returned
